@@ -160,6 +160,42 @@ class Sim:
             self.rec_choices[idx] = v
         return v
 
+    def choose_rare(self, tag, n, p):
+        """A recorded choice for a rare event: 0 (nothing happens) with probability 1-p, otherwise one of 1..n.
+        Drawn from the run's PRNG under every policy but "forced" (where the recorded value is replayed)."""
+        idx = self.n_choices
+        self.n_choices += 1
+        if self.forced_choices is not None:
+            v = self.forced_choices.get(idx, 0)
+            if v > n:
+                v = 0
+        else:
+            v = 0 if self.rng.random() >= p else 1 + self.rng.randrange(n)
+        if v:
+            self.rec_choices[idx] = v
+        return v
+
+    def maybe_stall(self, tag):
+        """Fault kind "stalled thread": with sched["stall"] = {"p": .., "durations": [..]} a library thread that reads
+        the performance counter may be descheduled for a drawn simulated duration right there (host under load, VM
+        pause, long GC) - the others run meanwhile and the clock moves on.  A recorded choice like any other."""
+        st = self.sched.get("stall")
+        if not st or self.killed or self.abort_reason:
+            return
+        rec = self.current
+        if rec is None or rec.real is not _rt.current_thread() or rec.is_driver:
+            return
+        durs = st.get("durations") or [0.15]
+        v = self.choose_rare("stall", len(durs), float(st.get("p", 0.02)))
+        if v:
+            self.count("fault_stall")
+            self.ev("stall", rec.role, tag, durs[v - 1])
+            self.block(("stall",), durs[v - 1])
+
+    def stalled(self):
+        """Is some thread sitting out an injected stall right now?"""
+        return any(t.state == BLOCKED and t.waiting == ("stall",) for t in self.threads)
+
     def _want_preempt(self):
         n = self.line_events
         if self.forced_pre is not None:
@@ -180,8 +216,13 @@ class Sim:
             self.pct_points = {self.line_events + off for off in self.pct_offsets}
 
     def decisions(self):
-        return {"policy": "forced", "pre": list(self.rec_pre),
-                "choices": {str(k): v for k, v in self.rec_choices.items()}}
+        out = {"policy": "forced", "pre": list(self.rec_pre),
+               "choices": {str(k): v for k, v in self.rec_choices.items()}}
+        for key in ("timer_slack", "sleep_slack", "stall"):
+            # options that decide WHICH choices are asked for: a forced replay needs them to line the indices up
+            if key in self.sched:
+                out[key] = self.sched[key]
+        return out
 
     # --------------------------------------------------------------- threads
     def attach_driver(self):
@@ -777,7 +818,10 @@ class TimeShim:
 def sim_timer():
     """Replacement for timeit.default_timer bound into mysensors.task."""
     sim = CURRENT
-    return sim.monotonic() if sim is not None else 1000.0
+    if sim is None:
+        return 1000.0
+    sim.maybe_stall("timer")
+    return sim.monotonic()
 
 
 def instrument_shared_attr(cls, name):
